@@ -145,7 +145,8 @@ def run_property(pid, tier="quick", replay=None, fact_dirs=None, quiet=False, wr
     if replay:
         want = json.load(open(replay)).get("key")
         unexpected = [o for o in unexpected if "%s:%s" % (o["rule"], o["key"]) == want]
-    vdir = os.path.join(VERIF, "out", "violations")
+    # runs against a scratch tree (sensitivity suite, tools/try_seed.sh) keep their replay files apart from /repo's
+    vdir = os.path.join(VERIF, "out", "violations" + ("-" + os.environ["VERIF_TAG"] if os.environ.get("VERIF_TAG") else ""))
     os.makedirs(vdir, exist_ok=True)
     for i, o in enumerate(unexpected):
         full = "%s:%s" % (o["rule"], o["key"])
